@@ -40,3 +40,6 @@ ObjectSM.vos ObjectSM.vok ObjectSM.required_vos: ObjectSM.v
 SolverOracle.vo SolverOracle.glob SolverOracle.v.beautified SolverOracle.required_vo: SolverOracle.v NumSig.vo Tridiag.vo Reservoir.vo
 SolverOracle.vio: SolverOracle.v NumSig.vio Tridiag.vio Reservoir.vio
 SolverOracle.vos SolverOracle.vok SolverOracle.required_vos: SolverOracle.v NumSig.vos Tridiag.vos Reservoir.vos
+DAK_spec.vo DAK_spec.glob DAK_spec.v.beautified DAK_spec.required_vo: DAK_spec.v 
+DAK_spec.vio: DAK_spec.v 
+DAK_spec.vos DAK_spec.vok DAK_spec.required_vos: DAK_spec.v 
